@@ -56,12 +56,15 @@ def generate(rng, tier, cls):
 
     if cls in ('cuts_writer', 'crash', 'overtake') or \
        (cls == 'length' and rng.chance(0.5)):
-        main, ops = gen.gen_history(rng, max_changes=2, max_files=2)
+        k = 3 if tier == 'thorough' else 2
+        main, ops = gen.gen_history(rng, max_changes=k, max_files=k)
         prod = {'id': 'P1', 'kind': 'writer', 'file': 'f1',
                 'main_encoding': main, 'ops': ops}
     else:
         prod = {'id': 'P1', 'kind': 'raw', 'file': 'f1',
-                'foreign': gen.gen_foreign(rng, max_changes=2, max_files=2)}
+                'foreign': gen.gen_foreign(
+                    rng, max_changes=3 if tier == 'thorough' else 2,
+                    max_files=3 if tier == 'thorough' else 2)}
 
     scn = {'actors': [prod], 'schedule': [], 'faults': [],
            'block_size': bs}
